@@ -3,7 +3,7 @@
 Require Import ZArith List Lia.
 Import ListNotations.
 Local Open Scope Z_scope.
-From EphVerif Require Import lib.Bytes model.ProviderModel proofs.ProviderProofs gen.Constants_kademlia.
+From EphVerif Require Import lib.Bytes model.ProviderModel proofs.ProviderProofs proofs.ProviderHistoryProofs gen.Constants_kademlia.
 
 (* Every state reachable by any history of add / withdraw / find / sweep / advance (no bound on its length):
    per chunk, no holder expires after the locator deadline, peers are unique, at most 20 holders, never an
@@ -48,11 +48,19 @@ Proof. exact cap_keeps_latest. Qed.
 Theorem c06_cap : max_providers = 20.
 Proof. reflexivity. Qed.
 
-(* PARTIAL (c06_history_partial): the history-level statement -- for every operation list, each find equals the
-   reference that never deletes anything (latest announcement per peer, minus withdrawals, minus cap evictions) --
-   is not proved as one refinement theorem; the theorems above are its per-step ingredients, and the reference
-   itself is the python oracle of the correspondence check.  Missing: the simulation relation "live sets equal"
-   across lazily purged expired holders, and tie handling in std::sort. *)
+(* The history-level statement.  The reference never removes anything because time has passed: `ref_exec ops` applies the
+   announcements, withdrawals and clock advances of the history and ignores lookups and sweeps; `ref_find` is its holders whose
+   own expiry lies in the future.  After ANY history that stays below the cap (`below_cap`: the reference never has to cut a
+   list down to 20), every lookup of the real table -- which purges expired holders lazily, at lookups and sweeps, and drops
+   whole locators -- answers exactly what the reference answers, in the same order. *)
+Theorem c06_history_refinement : forall ops c, below_cap init ops ->
+  fst (find (exec init ops) c) = ref_find (ref_exec ops) c /\ now (exec init ops) = now (ref_exec ops).
+Proof. exact history_refinement. Qed.
+Print Assumptions c06_history_refinement.
+(* PARTIAL (c06_history_partial): histories that reach the cap are covered only step by step (c06_cap_keeps_latest): there the
+   real table sorts and cuts a list from which expired holders may already have been purged, the reference one that still
+   holds them, so the two agree only up to the order of the answer and up to std::sort's tie order; that permutation-level
+   statement is not proved (the python oracle of the correspondence check compares sorted answers). *)
 
 (* non-vacuity: the historical failure, in the model of the repaired code *)
 Example c06_example :
